@@ -105,11 +105,11 @@ def topologies(which=('tri', 'two', 'fan', 'strip')):
 
 
 def configs(h):
-    """(order, bubble): orders 2, 3 and P3 with bubble quick (P3b: two interior nodes per edge AND three non-symmetric interior nodes; P2/P3 are blind to permutations of
-    those); 4, 5 and the other bubble elements thorough"""
-    q = [(2, False), (3, False), (3, True)]
+    """(order, bubble): orders 2, 3 and both with bubble quick (P2b: the only element with interior nodes at order 2 - 7 nodes, one bubble node; P3b: two interior nodes per
+    edge AND three non-symmetric interior nodes; P2/P3 are blind to permutations of those); 4, 5 and their bubble elements thorough"""
+    q = [(2, False), (3, False), (2, True), (3, True)]
     if h.thorough():
-        q += [(4, False), (5, False), (2, True), (4, True), (5, True)]
+        q += [(4, False), (5, False), (4, True), (5, True)]
     return q
 
 
@@ -177,6 +177,21 @@ class Elev:
         self.nv = len(emb)
         base = M.construct_mesh_from_basic_data(jnp.asarray(emb), jnp.array(conn), {'block': jnp.arange(len(conn))})
         ho = M.create_higher_order_mesh_from_simplex_mesh(base, order, useBubbleElement=bubble)
+        self._tables(ho)
+        conns0 = self.conns
+
+        def fn(X):
+            with jax.ensure_compile_time_eval():
+                m = M.create_higher_order_mesh_from_simplex_mesh(M.mesh_with_coords(base, X), order, useBubbleElement=bubble)
+            if isinstance(m.conns, jax.core.Tracer) or [[int(v) for v in row] for row in onp.asarray(m.conns)] != conns0:
+                raise RuntimeError('connectivity of the traced run differs from the concrete run')
+            return m.coords
+        self.fn = fn
+        self.emb = emb
+        if case:
+            self.mk_case(h)
+
+    def _tables(self, ho):
         self.ho = ho
         self.conns = [[int(v) for v in row] for row in onp.asarray(ho.conns)]
         pe, pe1 = ho.parentElement, ho.parentElement1d
@@ -190,18 +205,6 @@ class Elev:
         self.nn = int(ho.coords.shape[0])
         self.simplex = [int(v) for v in ho.simplexNodesOrdinals]
         self.in_range = all(0 <= g < self.nn for row in self.conns for g in row) and all(0 <= a < self.npe for f in self.face for a in f)
-        conns0 = self.conns
-
-        def fn(X):
-            with jax.ensure_compile_time_eval():
-                m = M.create_higher_order_mesh_from_simplex_mesh(M.mesh_with_coords(base, X), order, useBubbleElement=bubble)
-            if isinstance(m.conns, jax.core.Tracer) or [[int(v) for v in row] for row in onp.asarray(m.conns)] != conns0:
-                raise RuntimeError('connectivity of the traced run differs from the concrete run')
-            return m.coords
-        self.fn = fn
-        self.emb = emb
-        if case:
-            self.mk_case(h)
 
     def mk_case(self, h):
         self.case = Case(h, self.fn, dict(X=onp.asarray(self.emb, dtype=float)), sampler=emb_sampler(self.emb), label='elevate ' + self.label, validate=2)
@@ -234,7 +237,7 @@ def common(h):
 
 
 TOPO_TEXT = ('fixed connectivities: single triangle (3 cyclic vertex orders), two triangles sharing an edge (all 9 combinations of cyclic orders), closed 4-triangle fan '
-             'around an interior vertex, 4-triangle strip bent around a boundary notch (mixed cyclic orders); orders 2, 3, 3+bubble (thorough: 4, 5 and the bubble elements P2b, P4b, P5b)')
+             'around an interior vertex, 4-triangle strip bent around a boundary notch (mixed cyclic orders); orders 2, 3, 2+bubble, 3+bubble (thorough: 4, 5, 4+bubble, 5+bubble)')
 
 
 # ------------------------------------------------------------------------------------------ O1
@@ -418,14 +421,9 @@ def o3b(h):
     _o3(h, ('fan', 'strip'))
 
 
-# ------------------------------------------------------------------------------------------ O4
-@obligation(P, 'O4.connectivity_facts', cap=280)
-def o4(h):
-    """ground facts on the connectivity the real code produces: in range, every node used, vertex columns = the simplex connectivity, node count, every edge-interior
-    node used by exactly the elements adjacent to its edge, every element-interior node used by exactly one element, no node twice in one element"""
-    common(h)
-    h.bounds(TOPO_TEXT, 'no symbolic input: the connectivity does not depend on the coordinates (ground facts admitted by DESIGN.md section 5 C13-O4)')
-    for E in cases(h, case=False, need_range=False):
+def connectivity_facts(h, name, E):
+    """ground facts on the concrete connectivity of one elevated mesh (E: Elev-like)"""
+    if True:
         conn, ne = E.conn, len(E.conn)
         nE = len(interior_edges(conn)) + len(boundary_sides(conn))
         nint1, nint2 = E.order - 1, len(E.inter)
@@ -433,8 +431,8 @@ def o4(h):
         use = {g: [e for e in range(ne) if g in E.conns[e]] for g in set(range(E.nn)) | set(flatc)}
         problems = []
         if not E.in_range:
-            ground(h, 'O4[%s]' % E.label, False, 'connectivity or face tables out of range: %s / %s' % (E.conns, E.face), dict(conns=E.conns))
-            continue
+            ground(h, name, False, 'connectivity or face tables out of range: %s / %s' % (E.conns, E.face), dict(conns=E.conns))
+            return
         if sorted(set(flatc)) != list(range(E.nn)):
             problems.append('unused nodes %s' % sorted(set(range(E.nn)) - set(flatc)))
         if E.nn != E.nv + nE * nint1 + ne * nint2:
@@ -469,7 +467,20 @@ def o4(h):
                     problems.append('interior node %d of e%d used by %s' % (g, e, use[g]))
         if len(seen) != E.nn:
             problems.append('nodes that are neither vertex, edge nor interior nodes: %s' % sorted(set(range(E.nn)) - seen))
-        ground(h, 'O4[%s]' % E.label, not problems, '%d nodes, %d elements x %d nodes, %d edges; %s' % (E.nn, ne, E.npe, nE, problems or 'all facts hold'), dict(problems=problems))
+        ground(h, name, not problems, '%d nodes, %d elements x %d nodes, %d edges; %s' % (E.nn, ne, E.npe, nE, problems or 'all facts hold'), dict(problems=problems))
+
+
+
+
+# ------------------------------------------------------------------------------------------ O4
+@obligation(P, 'O4.connectivity_facts', cap=280)
+def o4(h):
+    """ground facts on the connectivity the real code produces: in range, every node used, vertex columns = the simplex connectivity, node count, every edge-interior
+    node used by exactly the elements adjacent to its edge, every element-interior node used by exactly one element, no node twice in one element"""
+    common(h)
+    h.bounds(TOPO_TEXT, 'no symbolic input: the connectivity does not depend on the coordinates (ground facts admitted by DESIGN.md section 5 C13-O4)')
+    for E in cases(h, case=False, need_range=False):
+        connectivity_facts(h, 'O4[%s]' % E.label, E)
 
 
 # ------------------------------------------------------------------------------------------ O5
@@ -775,7 +786,7 @@ def o7(h):
     M, I = _mods()
     common(h)
     h.encoded(M.get_edge_coords, M.get_edge_field, M.get_edge_node_indices)
-    h.bounds(TOPO_TEXT.replace('orders 2, 3, 3+bubble (thorough: 4, 5 and the bubble elements P2b, P4b, P5b)', 'orders 2, 3 (thorough: 3b, 5)'), 'all vertex coordinates free in [-%g,%g]^2; tolerance %.3g' % (BOX, BOX, TOL_NODE))
+    h.bounds(TOPO_TEXT.replace('orders 2, 3, 2+bubble, 3+bubble (thorough: 4, 5, 4+bubble, 5+bubble)', 'orders 2, 3 (thorough: 3b, 5)'), 'all vertex coordinates free in [-%g,%g]^2; tolerance %.3g' % (BOX, BOX, TOL_NODE))
     cfgs = [(2, False), (3, False)] + ([(3, True), (5, False)] if h.thorough() else [])
     for E in cases(h, case=False, cfgs=cfgs):
         ec, ed = M.create_edges(jnp.array(E.conn))
@@ -1566,3 +1577,75 @@ def o9(h):
                   % __import__('netCDF4').__version__)
     for name, spec in EXO_SCENARIOS:
         px.run_px(h, name, exodus_harness(spec), cap=30, order=('core',))
+
+
+# ------------------------------------------------------------------------------------------ O6b: structured generator with elementOrder > 1
+class StructElev(Elev):
+    """construct_structured_mesh(Nx, Ny, xExtent, yExtent, elementOrder, useBubbleElement) with symbolic extents: same tables as Elev, traced function of the extents"""
+
+    def __init__(self, h, Nx, Ny, order, bubble):
+        M, I = _mods()
+        self.label = 'structured %dx%d %s' % (Nx, Ny, ename(order, bubble))
+        self.order, self.bubble, self.nv = order, bubble, Nx * Ny
+        ho = M.construct_structured_mesh(Nx, Ny, [0., 1.], [0., 1.], elementOrder=order, useBubbleElement=bubble)
+        base = M.construct_structured_mesh(Nx, Ny, [0., 1.], [0., 1.])
+        self.conn = [[int(v) for v in row] for row in onp.asarray(base.conns)]
+        self._tables(ho)
+        conns0 = self.conns
+
+        def fn(ext):
+            with jax.ensure_compile_time_eval():
+                m = M.construct_structured_mesh(Nx, Ny, [ext[0], ext[1]], [ext[2], ext[3]], elementOrder=order, useBubbleElement=bubble)
+            if isinstance(m.conns, jax.core.Tracer) or [[int(v) for v in row] for row in onp.asarray(m.conns)] != conns0:
+                raise RuntimeError('connectivity of the traced run differs from the concrete run')
+            return m.coords
+        self.fn = fn
+
+    def mk_case(self, h):
+        def smp(rng):
+            x0, y0 = rng.uniform(-2, 1, size=2)
+            return [onp.array([x0, x0 + rng.uniform(0.3, 2), y0, y0 + rng.uniform(0.3, 2)])]
+        self.case = Case(h, self.fn, dict(ext=onp.array([0., 1., 0., 1.])), sampler=smp, label='construct_structured_mesh ' + self.label, validate=2)
+
+
+@obligation(P, 'O6b.structured_mesh_elevated', cap=280)
+def o6b(h):
+    """Mesh.construct_structured_mesh with elementOrder >= 2 (with and without bubble) and SYMBOLIC extents: the connectivity facts of O4 (ground) and, for all extents, every node
+    of every element at v2 + J xi_a of the element's own vertices (the grid nodes, themselves checked against the regular grid), vertex nodes first and unchanged"""
+    M, I = _mods()
+    common(h)
+    h.encoded(M.construct_structured_mesh, M.create_structured_mesh_data)
+    TOLG = 16 * EPS * BOX
+    sizes = [(2, 2), (3, 2)] + ([(2, 3), (3, 3)] if h.thorough() else [])
+    cfgs = [(2, False), (2, True), (3, True)] + ([(3, False), (4, True), (5, False)] if h.thorough() else [])
+    h.bounds('grids %s x element types %s; extents x0, x1, y0, y1 free in [-%g,%g] with x1 - x0 >= %g, y1 - y0 >= %g; tolerances %.3g (grid), %.3g (affine images, relative to the grid nodes)'
+             % (sizes, [ename(*c) for c in cfgs], BOX, BOX, L_MIN, L_MIN, TOLG, TOL_NODE))
+    for Nx, Ny in sizes:
+        for order, bubble in cfgs:
+            E = StructElev(h, Nx, Ny, order, bubble)
+            connectivity_facts(h, 'facts[%s]' % E.label, E)
+            if not E.in_range:
+                continue
+            E.mk_case(h)
+
+            def spec(i, o, E=E, Nx=Nx, Ny=Ny):
+                ext, XS = i['ext'], o
+                x0, x1, y0, y1 = [ext[k] for k in range(4)]
+                Lx, Ly = v_sub(x1, x0), v_sub(y1, y0)
+                Ex, Ey = Nx - 1, Ny - 1
+                grid = []
+                for ny in range(Ny):
+                    for nx in range(Nx):
+                        g = ny * Nx + nx
+                        grid += [v_abs(v_sub(v_mul(float(Ex), v_sub(XS[g][0], x0)), v_mul(float(nx), Lx))), v_abs(v_sub(v_mul(float(Ey), v_sub(XS[g][1], y0)), v_mul(float(ny), Ly)))]
+                lhs = []
+                for e, c in enumerate(E.conn):
+                    v, J, det = geom(XS, c)           # the element's own vertex nodes (rows 0 .. Nx*Ny-1 of the elevated coordinate array)
+                    for a in range(E.npe):
+                        pnt = affine_point(v, J, E.pc[a])
+                        g = E.conns[e][a]
+                        lhs += [v_abs(v_sub(XS[g][0], pnt[0])), v_abs(v_sub(XS[g][1], pnt[1]))]
+                return box(ext) + [v_le(L_MIN, Lx), v_le(L_MIN, Ly)], [
+                    Le(grid, TOLG * max(Ex, Ey), name='vertex_nodes_on_the_regular_grid', scale=SC),
+                    Le(lhs, TOL_NODE, name='nodes_eq_v2_plus_J_xi', scale=SC)]
+            E.case.prove('O6b[%s]' % E.label, spec, cap=40)
